@@ -1,6 +1,7 @@
 import GdcVerif.GoPrelude
 import GdcVerif.Model.C17Params
 import GdcVerif.Model.Rle
+import GdcVerif.Lemmas.RleEnc
 import GdcVerif.Gen.JpegLs
 import GdcVerif.Gen.ValidateJpegBaseline
 import GdcVerif.Gen.ValidateJpegExtended
@@ -97,18 +98,199 @@ theorem declared16_of_fits (v : Int) (h0 : 0 ≤ v) (h1 : v ≤ 65535) : declare
 end C17
 
 namespace C17
-open Gen.ValidateJ2k
 
-set_option maxRecDepth 100000 in
-/-- exhaustive over the only range the guard lets through (4..1024) -/
-theorem isPowerOfTwo_range_nat : ∀ k : Nat, k < 1025 → 4 ≤ k →
-    isPowerOfTwo (k : Int) = true → (k : Int) ∈ pow2s 2 10 := by
-  decide
+theorem pow2_of_land : ∀ n : Nat, 0 < n → n &&& (n - 1) = 0 → ∃ k, n = 2 ^ k := by
+  intro n
+  induction n using Nat.strongRecOn with
+  | _ n ih =>
+    intro hpos h
+    rcases (by omega : n = 1 ∨ 2 ≤ n) with h1 | h2
+    · exact ⟨0, by simpa using h1⟩
+    · have hd : (n &&& (n - 1)) / 2 = n / 2 &&& (n - 1) / 2 := Nat.and_div_two
+      rw [h] at hd
+      rcases (by omega : n % 2 = 1 ∨ n % 2 = 0) with ho | he
+      · have : (n - 1) / 2 = n / 2 := by omega
+        rw [this, Nat.and_self] at hd
+        omega
+      · have : (n - 1) / 2 = n / 2 - 1 := by omega
+        rw [this] at hd
+        obtain ⟨k, hk⟩ := ih (n / 2) (by omega) (by omega) hd.symm
+        exact ⟨k + 1, by rw [Nat.pow_succ]; omega⟩
 
+theorem go_and_nat (a b : Nat) (ha : a < 2 ^ 63) (hb : b < 2 ^ 63) : Go.and a b = ((a &&& b : Nat) : Int) := by
+  unfold Go.and
+  rw [BitVec.ofInt_natCast, BitVec.ofInt_natCast, BitVec.toInt_eq_toNat_cond, BitVec.toNat_and,
+    BitVec.toNat_ofNat, BitVec.toNat_ofNat, Nat.mod_eq_of_lt (by omega), Nat.mod_eq_of_lt (by omega)]
+  have : a &&& b ≤ a := Nat.and_le_left
+  rw [if_pos (by omega)]
+
+open Gen.ValidateJ2k in
+theorem isPowerOfTwo_pow2 (n : Int) (hn : n < 2 ^ 62) (hp : isPowerOfTwo n = true) : ∃ k : Nat, n = 2 ^ k := by
+  unfold isPowerOfTwo at hp
+  simp at hp
+  obtain ⟨hpos, hand⟩ := hp
+  obtain ⟨m, rfl⟩ : ∃ m : Nat, n = (m : Int) := ⟨n.toNat, by omega⟩
+  have e1 : (m : Int) - 1 = ((m - 1 : Nat) : Int) := by omega
+  rw [e1, go_and_nat _ _ (by omega) (by omega)] at hand
+  obtain ⟨k, hk⟩ := pow2_of_land m (by omega) (by omega)
+  exact ⟨k, by rw [hk]; simp⟩
+
+open Gen.ValidateJ2k in
+theorem isPowerOfTwo_mem (n : Int) (lo hi : Nat) (hhi : hi ≤ 61)
+    (hl : ((2 ^ lo : Nat) : Int) ≤ n) (hh : n ≤ ((2 ^ hi : Nat) : Int))
+    (hp : isPowerOfTwo n = true) : n ∈ pow2s lo hi := by
+  have h61 := Nat.pow_le_pow_right (n := 2) (by decide) hhi
+  have e61 : (2 : Nat) ^ 61 < 2 ^ 62 := by decide
+  have e62 : ((2 ^ 62 : Nat) : Int) = (2 : Int) ^ 62 := by simp
+  obtain ⟨k, hk⟩ := isPowerOfTwo_pow2 n (by omega) hp
+  have hk' : n = ((2 ^ k : Nat) : Int) := by rw [hk]; simp
+  have hlo : lo ≤ k := by
+    rcases (by omega : lo ≤ k ∨ k < lo) with h | h
+    · exact h
+    · have := Nat.pow_lt_pow_right (a := 2) (by decide) h
+      omega
+  have hhi' : k ≤ hi := by
+    rcases (by omega : k ≤ hi ∨ hi < k) with h | h
+    · exact h
+    · have := Nat.pow_lt_pow_right (a := 2) (by decide) h
+      omega
+  unfold pow2s
+  refine List.mem_map.mpr ⟨k - lo, List.mem_range.mpr (by omega), ?_⟩
+  rw [show k - lo + lo = k by omega, hk]
+
+/-- the generated `isPowerOfTwo` (n>0 && n&(n-1)==0, Go 64-bit `&`) on the range the code-block guard lets through -/
 theorem isPowerOfTwo_range (n : Int) (h4 : 4 ≤ n) (h1024 : n ≤ 1024)
-    (hp : isPowerOfTwo n = true) : n ∈ pow2s 2 10 := by
-  have hn : n = ((n.toNat : Nat) : Int) := by omega
-  rw [hn] at hp ⊢
-  exact isPowerOfTwo_range_nat n.toNat (by omega) (by omega) hp
+    (hp : Gen.ValidateJ2k.isPowerOfTwo n = true) : n ∈ pow2s 2 10 :=
+  isPowerOfTwo_mem n 2 10 (by decide) (by have : ((2 ^ 2 : Nat) : Int) = 4 := rfl; omega)
+    (by have : ((2 ^ 10 : Nat) : Int) = 1024 := rfl; omega) hp
+
+/-- … and on the range of the precinct guard (positive by `isPowerOfTwo`, ≤ 32768) -/
+theorem isPowerOfTwo_precinct (n : Int) (h : n ≤ 32768)
+    (hp : Gen.ValidateJ2k.isPowerOfTwo n = true) : n ∈ pow2s 0 15 := by
+  have hpos : 0 < n := by
+    unfold Gen.ValidateJ2k.isPowerOfTwo at hp; simp at hp; exact hp.1
+  exact isPowerOfTwo_mem n 0 15 (by decide) (by have : ((2 ^ 0 : Nat) : Int) = 1 := rfl; omega)
+    (by have : ((2 ^ 15 : Nat) : Int) = 32768 := rfl; omega) hp
+
+end C17
+
+/-! ## `nearestPowerOf2` (jpeg2000/htj2k/parameters.go) on the clamped range, and htj2k `Validate` in closed form -/
+namespace C17
+open C17Model
+
+theorem shl1 (x : Int) : Go.shl x 1 = x * 2 := by
+  unfold Go.shl; have : (1 : Int).toNat = 1 := rfl
+  rw [this]; simp
+
+theorem shr1 (x : Int) : Go.shr x 1 = x / 2 := by
+  unfold Go.shr; have : (1 : Int).toNat = 1 := rfl
+  rw [this, Int.shiftRight_eq_div_pow]; simp
+
+theorem pow2_succ_cast (j : Nat) : ((2 ^ j : Nat) : Int) * 2 = ((2 ^ (j + 1) : Nat) : Int) := by
+  rw [Nat.pow_succ]; omega
+
+theorem npo2Loop_spec (n : Int) : ∀ (fuel j : Nat), n ≤ ((2 ^ (j + fuel) : Nat) : Int) →
+    ∃ k, npo2Loop n fuel ((2 ^ j : Nat) : Int) = ((2 ^ k : Nat) : Int) ∧ j ≤ k ∧ n ≤ ((2 ^ k : Nat) : Int) ∧
+      (k = j ∨ ((2 ^ (k - 1) : Nat) : Int) < n) := by
+  intro fuel
+  induction fuel with
+  | zero => intro j h; exact ⟨j, by simp [npo2Loop], Nat.le_refl _, by simpa using h, Or.inl rfl⟩
+  | succ f ih =>
+    intro j h
+    by_cases hlt : ((2 ^ j : Nat) : Int) < n
+    · have hstep : npo2Loop n (f + 1) ((2 ^ j : Nat) : Int) = npo2Loop n f ((2 ^ (j + 1) : Nat) : Int) := by
+        rw [npo2Loop, if_pos hlt, shl1, pow2_succ_cast]
+      obtain ⟨k, hk, hjk, hn, hor⟩ := ih (j + 1) (by rw [show j + 1 + f = j + (f + 1) by omega]; exact h)
+      refine ⟨k, by rw [hstep, hk], by omega, hn, Or.inr ?_⟩
+      rcases hor with h1 | h1
+      · subst h1; simpa using hlt
+      · exact h1
+    · refine ⟨j, ?_, Nat.le_refl _, by omega, Or.inl rfl⟩
+      rw [npo2Loop, if_neg hlt]
+
+theorem pow2_mem (m : Nat) (h2 : 2 ≤ m) (h10 : m ≤ 10) : ((2 ^ m : Nat) : Int) ∈ pow2s 2 10 := by
+  have hm : m = 2 ∨ m = 3 ∨ m = 4 ∨ m = 5 ∨ m = 6 ∨ m = 7 ∨ m = 8 ∨ m = 9 ∨ m = 10 := by omega
+  rcases hm with h | h | h | h | h | h | h | h | h <;> subst h <;> decide
+
+theorem nearestPowerOf2_range (n : Int) (h4 : 4 ≤ n) (h1024 : n ≤ 1024) :
+    nearestPowerOf2 n ∈ pow2s 2 10 := by
+  have hfuel : n ≤ ((2 ^ (0 + n.toNat) : Nat) : Int) := by
+    have := @Nat.lt_two_pow_self n.toNat
+    rw [Nat.zero_add]; omega
+  obtain ⟨k, hk, _, hn, hor⟩ := npo2Loop_spec n n.toNat 0 hfuel
+  have hk2 : 2 ≤ k := by
+    rcases (by omega : k ≤ 1 ∨ 2 ≤ k) with h | h
+    · have h1 := Nat.pow_le_pow_right (n := 2) (by decide) h
+      have : (2 : Nat) ^ 1 = 2 := rfl
+      omega
+    · exact h
+  have hprev : ((2 ^ (k - 1) : Nat) : Int) < n := by
+    rcases hor with h0 | h0
+    · omega
+    · exact h0
+  have hk10 : k ≤ 10 := by
+    rcases (by omega : k ≤ 10 ∨ 10 ≤ k - 1) with h | h
+    · exact h
+    · have h1 := Nat.pow_le_pow_right (n := 2) (by decide) h
+      have : (2 : Nat) ^ 10 = 1024 := rfl
+      omega
+  have hdouble : ((2 ^ k : Nat) : Int) = ((2 ^ (k - 1) : Nat) : Int) * 2 := by
+    rw [pow2_succ_cast, show k - 1 + 1 = k by omega]
+  have h1 : ((2 ^ 0 : Nat) : Int) = 1 := rfl
+  rw [h1] at hk
+  unfold nearestPowerOf2
+  rw [if_neg (by omega)]
+  simp only [hk, shr1]
+  have hhalf : ((2 ^ k : Nat) : Int) / 2 = ((2 ^ (k - 1) : Nat) : Int) := by omega
+  rw [hhalf]
+  split
+  · rename_i hc
+    have : 3 ≤ k := by
+      rcases (by omega : k = 2 ∨ 3 ≤ k) with h | h
+      · subst h
+        have e1 : ((2 ^ 2 : Nat) : Int) = 4 := rfl
+        have e2 : ((2 ^ (2 - 1) : Nat) : Int) = 2 := rfl
+        rw [e1] at hn hc; rw [e2] at hc
+        omega
+      · exact h
+    exact pow2_mem (k - 1) (by omega) (by omega)
+  · exact pow2_mem k hk2 hk10
+
+open Gen.ValidateHtj2k in
+theorem htj2k_validate_closed (p : Parameters) :
+    (Parameters.Validate p).1 =
+      { Quality := if p.Quality < 1 then 1 else if p.Quality > 100 then 100 else p.Quality,
+        BlockWidth := nearestPowerOf2 (if p.BlockWidth < 4 then 4 else if p.BlockWidth > 1024 then 1024 else p.BlockWidth),
+        BlockHeight := nearestPowerOf2 (if p.BlockHeight < 4 then 4 else if p.BlockHeight > 1024 then 1024 else p.BlockHeight),
+        NumLevels := if p.NumLevels < 0 then 0 else if p.NumLevels > 6 then 6 else p.NumLevels } := by
+  obtain ⟨q, bw, bh, nl⟩ := p
+  unfold Parameters.Validate
+  simp only [decide_eq_true_eq]
+  by_cases h1 : q < 1 <;> by_cases h2 : q > 100 <;> by_cases h3 : bw < 4 <;> by_cases h4 : bw > 1024 <;>
+    simp only [h1, h2, h3, h4, if_true, if_false] <;>
+    by_cases h5 : bh < 4 <;> by_cases h6 : bh > 1024 <;> by_cases h7 : nl < 0 <;> by_cases h8 : nl > 6 <;>
+    simp only [h5, h6, h7, h8, if_true, if_false]
+
+
+/-! ## RLE: the `tempBuffer` overrun flag of the model is never raised (C01's encoder invariant) -/
+
+theorem encodeSegments_oob (i : Rle.Info) (src : Array Rle.Byte) :
+    ∀ (n s : Nat) (body : List Rle.Byte) (offs : List Nat) (oob : Bool) (r : List Rle.Byte × List Nat × Bool),
+      Rle.encodeSegments i src n s body offs oob = .ok r → r.2.2 = oob := by
+  intro n
+  induction n with
+  | zero =>
+    intro s body offs oob r h
+    simp [Rle.encodeSegments] at h
+    cases h; rfl
+  | succ n ih =>
+    intro s body offs oob r h
+    rw [Rle.encodeSegments] at h
+    simp only [] at h
+    split at h
+    · cases h
+    · rename_i plane _
+      have := ih _ _ _ _ r h
+      rw [this, (Rle.encodeSegment_spec plane).2, Bool.or_false]
 
 end C17
